@@ -65,6 +65,7 @@ type GoFile struct {
 	PkgDoc  []string `json:"pkgdoc,omitempty"`  // comment lines directly above the package clause
 	Header  []string `json:"header,omitempty"`  // detached comment lines at the top of the file
 	Imports []string `json:"imports,omitempty"` // import paths (blank-imported unless used by Decl text)
+	Build   string   `json:"build,omitempty"`   // build constraint expression (a //go:build line ahead of everything else)
 	Decls   []Decl   `json:"decls,omitempty"`
 }
 
@@ -268,6 +269,9 @@ func (d *Decl) Source(b *bytes.Buffer) {
 // Source renders the Go file.
 func (f *GoFile) Source(pkgName string) string {
 	b := &bytes.Buffer{}
+	if f.Build != "" {
+		fmt.Fprintf(b, "//go:build %s\n\n", f.Build)
+	}
 	if len(f.Header) > 0 {
 		writeComment(b, "", f.Header)
 		b.WriteString("\n")
